@@ -247,11 +247,35 @@ func (ex *Exec) monitorEvent(fr *Frame, st *State, recv Val, lock bool) {
 	_ = havoc
 	if lock {
 		for _, md := range mds {
+			if md.Rely != nil {
+				ex.interfere(fr, st, md, p.Ref)
+				id := md.Type + "." + md.Field + "@" + p.Ref.S
+				st.held = append(st.held, id)
+				known := false
+				for _, mi := range st.monInst {
+					known = known || (mi.md == md && mi.self.S == p.Ref.S)
+				}
+				if !known {
+					st.monInst = append(st.monInst, monInst{md: md, self: p.Ref})
+				}
+				continue
+			}
 			if f, ok := inv(md, false); ok {
 				st.assume(f)
 			}
 		}
 		return
+	}
+	for _, md := range mds {
+		if md.Rely != nil {
+			id := md.Type + "." + md.Field + "@" + p.Ref.S
+			for i := len(st.held) - 1; i >= 0; i-- {
+				if st.held[i] == id {
+					st.held = append(append([]string{}, st.held[:i]...), st.held[i+1:]...)
+					break
+				}
+			}
+		}
 	}
 	for i, md := range mds {
 		if f, ok := inv(md, true); ok {
@@ -311,4 +335,67 @@ func (ex *Exec) chanMsgHook(fr *Frame, st *State, ev string, msg Term) {
 			st.assume(f)
 		}
 	}
+}
+
+type monInst struct {
+	md   *MonitorDecl
+	self Term
+}
+
+// interfere: the other threads run. The state the monitor protects (ghosts, the closed flag of its close-only channels)
+// is forgotten; what is known afterwards is the monitor invariant (the mutex was free in between) and the declared
+// interference relation between the state before and after.
+func (ex *Exec) interfere(fr *Frame, st *State, md *MonitorDecl, self Term) {
+	vc := ex.vc
+	old := st.clone()
+	for _, pr := range md.Protects {
+		switch {
+		case strings.HasPrefix(pr, "ghost "):
+			ex.havocGhost(st, strings.TrimSpace(pr[6:]))
+		case strings.HasPrefix(pr, "chan "):
+			vc.heapGet(st, "CH_closed", "(Array Int Bool)")
+			ex.havocHeap(st, "CH_closed")
+		}
+	}
+	for _, cl := range []*Clause{md.Inv, md.Rely} {
+		e2 := ex.newEnv(st, old, md.pkg, fr)
+		selfTy, _ := e2.resolveType("*" + md.Type)
+		e2.binds["self"] = TVal{T: self, Ty: selfTy}
+		f := e2.Bool(cl.Expr)
+		if len(e2.errs) > 0 {
+			vc.fatalf("monitor %s.%s %q: %s", md.Type, md.Field, cl.Text, strings.Join(e2.errs, "; "))
+			return
+		}
+		st.assume(f)
+	}
+	vc.usedExt["interference on the state protected by "+md.Type+"."+md.Field+": other threads change it only as declared ("+md.Rely.Text+"), mutual exclusion of sync.Mutex"] = true
+}
+
+// interfereUnlocked: before a channel operation, for every monitor with interference whose mutex is not held right now.
+func (ex *Exec) interfereUnlocked(fr *Frame, st *State) {
+	for _, mi := range st.monInst {
+		id := mi.md.Type + "." + mi.md.Field + "@" + mi.self.S
+		held := false
+		for _, h := range st.held {
+			held = held || h == id
+		}
+		if !held {
+			ex.interfere(fr, st, mi.md, mi.self)
+		}
+	}
+}
+
+// closeOnly: the channel read from a field/variable of this name is only ever closed (declared: protects chan <name>).
+func (vc *VC) closeOnly(name string) bool {
+	if name == "" {
+		return false
+	}
+	for _, m := range vc.prog.contracts.Monitors {
+		for _, pr := range m.Protects {
+			if pr == "chan "+name {
+				return true
+			}
+		}
+	}
+	return false
 }
